@@ -181,6 +181,32 @@ def main(run: Run):
         lo = hi + 1
     for p in pmap(work_ticks, run.rotate(jobs)):
         run.merge(p)
+    # the conversions are functions: what was asked before must not matter. In ONE process (the workers each see a narrow band of |tick| only) a sample of
+    # ticks is interleaved with ticks of the other sign, of the complementary magnitude (|t1| + |t2| = 887273) and with its own mirror image, and every
+    # answer is compared with the exact TickMath port
+    from demeter.uniswap import helper as H
+    from demeter.uniswap.liquitidy_math import get_sqrt_ratio_at_tick as ratio
+    from mc.checks.c07 import ref_sqrt_ratio
+
+    sample = sorted({t for k in range(20) for t in (1 << k, (1 << k) - 1, (1 << k) + 1)} | set(range(0, MAX_TICK, 4999)) | {MAX_TICK, MAX_TICK - 1, 196026, 443636, 443637})
+    sample = [t for t in sample if 0 <= t <= MAX_TICK]
+    for t in sample:
+        for seq in ((t, -(MAX_TICK + 1 - t), -t, t), (-t, MAX_TICK + 1 - t, t, -t)):
+            for u in seq:
+                if not -MAX_TICK <= u <= MAX_TICK:
+                    continue
+                run.count("evaluations")
+                run.count("order_independence_evaluations")
+                got, want = ratio(u), ref_sqrt_ratio(u)
+                if got != want:
+                    run.violation("C06|get_sqrt_ratio_at_tick|depends-on-earlier-calls", "the sqrt price of a tick depends on which ticks were converted before it",
+                                  {"fn": "get_sqrt_ratio_at_tick", "tick": u, "asked_before": [x for x in seq]}, {"got": str(got), "expected": str(want)})
+                    break
+                back = H.sqrt_price_x96_to_tick(want)
+                if back != u:
+                    run.violation("C06|sqrt_price_x96_to_tick|depends-on-earlier-calls", "the tick of an exact boundary sqrt price depends on what was converted before",
+                                  {"fn": "sqrt_price_x96_to_tick", "tick": u, "asked_before": [x for x in seq]}, {"got": back})
+                    break
     run.sample({"fn": "get_sqrt_ratio_at_tick", "tick": -887272, "expect": MIN_SQRT_RATIO})
     run.sample({"fn": "sqrt_price_x96_to_tick", "x": "ratio(t), ratio(t)-1, ratio(t)+1, mid, quartiles, ratio(t+1)-1",
                 "for": "every tick t"})
